@@ -635,8 +635,231 @@ type c17journal struct {
 	Args []string `json:"args"`
 }
 
-func genC17Journal(r *RNG) (string, []string, int, bool) {
-	accs := []string{"Assets:Bank", "Assets:Bär:Konto", "Assets:Portfolio:日本", "Liabilities:Card", "Expenses:Food", "Expenses:Miete:Zürich", "Income:Salary", "Equity:Equity", "Expenses:A:B:C:D", "Assets:X"}
+// ---- the flags that determine the partition of a report (columns of the table)
+
+var c17intervalFlags = []string{"", "--once", "--days", "--weeks", "--months", "--quarters", "--years"}
+
+func c17Date(y int, m time.Month, d int) time.Time { return time.Date(y, m, d, 0, 0, 0, 0, time.UTC) }
+
+// c17StartOf is the first day of the interval of the given kind that contains d (harness side, used only to steer the inputs).
+func c17StartOf(d time.Time, ivl string) time.Time {
+	switch ivl {
+	case "--weeks":
+		return d.AddDate(0, 0, -((int(d.Weekday()) + 6) % 7))
+	case "--months":
+		return c17Date(d.Year(), d.Month(), 1)
+	case "--quarters":
+		return c17Date(d.Year(), (d.Month()-1)/3*3+1, 1)
+	case "--years":
+		return c17Date(d.Year(), 1, 1)
+	}
+	return d
+}
+
+// c17CountPeriods is the number of intervals of the given kind that meet [lo, hi]: the number of columns a report over that span
+// has without --last (1 without an interval flag, whatever the span).
+func c17CountPeriods(lo, hi time.Time, ivl string) int {
+	if ivl == "" || ivl == "--once" {
+		return 1
+	}
+	n := 0
+	for end := hi; !end.Before(lo) && n < 1000000; end = c17StartOf(end, ivl).AddDate(0, 0, -1) {
+		n++
+	}
+	return n
+}
+
+var c17intervalDays = map[string]int{"": 1, "--once": 1, "--days": 1, "--weeks": 7, "--months": 28, "--quarters": 90, "--years": 365}
+
+const c17nLastOpts = 10
+
+// genC17PeriodFlags draws the flags that determine the partition of a balance report over a journal whose period is [jlo, jhi]:
+// an interval flag (ivl indexes c17intervalFlags, -1: drawn), a --from/--to window (absent, one-sided, inside, covering, overlapping
+// either end, outside, inverted, one day, a few intervals long, the calendar year) and --last (lastOpt: 0 absent, then 0 (or -1), 1, 2, 3,
+// number of periods -1, +0, +1, 12, 1000; -1: drawn). The window is narrowed until the span holds at most maxCols periods; `big`
+// keeps windows away that leave the report without accounts (and bounds the columns by --last instead of narrowing). Returns the flags, a class signature and the number of columns expected.
+func genC17PeriodFlags(r *RNG, jlo, jhi time.Time, ivl, lastOpt, maxCols int, big bool) ([]string, string, int) {
+	if ivl < 0 {
+		ivl = r.Intn(len(c17intervalFlags))
+	}
+	if lastOpt < 0 {
+		lastOpt = r.Intn(c17nLastOpts)
+	}
+	flag := c17intervalFlags[ivl]
+	if jhi.Before(jlo) {
+		jlo, jhi = jhi, jlo
+	}
+	span := int(jhi.Sub(jlo).Hours()/24 + 0.5)
+	day := func(t time.Time, n int) time.Time { return t.AddDate(0, 0, n) }
+	inside := func() time.Time { return day(jlo, r.Intn(span+1)) }
+	before := func() time.Time { return day(jlo, -r.Range(1, 400)) }
+	after := func() time.Time { return day(jhi, r.Range(1, 400)) }
+	var from, to *time.Time
+	set := func(f, t *time.Time) { from, to = f, t }
+	ptr := func(t time.Time) *time.Time { return &t }
+	wk := r.Intn(14)
+	if big && (wk == 9 || wk == 10) {
+		wk = 0
+	}
+	win := "none"
+	switch wk {
+	case 1:
+		set(ptr(inside()), nil)
+		win = "from-inside"
+	case 2:
+		set(ptr(before()), nil)
+		win = "from-before"
+	case 3:
+		set(nil, ptr(inside()))
+		win = "to-inside"
+	case 4:
+		set(nil, ptr(after()))
+		win = "to-after"
+	case 5:
+		a, b := inside(), inside()
+		if b.Before(a) {
+			a, b = b, a
+		}
+		set(&a, &b)
+		win = "inside"
+	case 6:
+		set(ptr(before()), ptr(after()))
+		win = "covering"
+	case 7:
+		set(ptr(before()), ptr(inside()))
+		win = "overlap-start"
+	case 8:
+		set(ptr(inside()), ptr(after()))
+		win = "overlap-end"
+	case 9:
+		switch r.Intn(4) {
+		case 0:
+			b := before()
+			set(ptr(day(b, -r.Range(0, 200))), &b)
+			win = "outside-before"
+		case 1:
+			a := after()
+			set(&a, ptr(day(a, r.Range(0, 200))))
+			win = "outside-after"
+		case 2:
+			set(ptr(after()), nil)
+			win = "from-after"
+		default:
+			set(nil, ptr(before()))
+			win = "to-before"
+		}
+	case 10:
+		a := inside()
+		set(&a, ptr(day(a, -r.Range(1, 1+span))))
+		win = "inverted"
+	case 11:
+		a := inside()
+		if r.Chance(1, 3) {
+			a = Pick(r, []time.Time{jlo, jhi, c17StartOf(a, flag), day(c17StartOf(a, flag), -1)})
+		}
+		set(&a, &a)
+		win = "one-day"
+	case 12:
+		a := inside()
+		set(&a, ptr(day(a, r.Range(0, 3)*c17intervalDays[flag]+r.Range(0, 6))))
+		win = "short"
+	case 13:
+		set(ptr(c17Date(2020, 1, 1)), ptr(c17Date(2020, 12, 31)))
+		win = "year-2020"
+	}
+	// the span of the partition: the window clipped to the journal's period
+	eff := func() (time.Time, time.Time) {
+		s, e := jlo, jhi
+		if from != nil && from.After(s) {
+			s = *from
+		}
+		if to != nil && to.Before(e) {
+			e = *to
+		}
+		return s, e
+	}
+	s, e := eff()
+	p := c17CountPeriods(s, e, flag)
+	force := 0
+	if big && p > maxCols { // keep the window (and with it the accounts of the report): --last bounds the number of columns
+		force = r.Range(1, maxCols)
+	}
+	for limit, round := maxCols, 0; force == 0 && p > maxCols && round < 40; limit, round = limit/2+1, round+1 {
+		from = ptr(day(e, -r.Range(0, limit-1)*c17intervalDays[flag]))
+		s, e = eff()
+		p = c17CountPeriods(s, e, flag)
+		if round == 0 {
+			win += "+narrowed"
+		}
+	}
+	var args []string
+	if from != nil {
+		args = append(args, "--from", from.Format("2006-01-02"))
+	}
+	if to != nil {
+		args = append(args, "--to", to.Format("2006-01-02"))
+	}
+	if flag != "" {
+		args = append(args, flag)
+		if r.Chance(1, 25) { // --once is not in the group of mutually exclusive interval flags and wins over any of them
+			if flag == "--once" {
+				args = append(args, Pick(r, c17intervalFlags[2:]))
+			} else {
+				args = append(args, "--once")
+				flag, p = "--once", 1
+			}
+		}
+	}
+	last, lastSig := 0, "absent"
+	switch lastOpt {
+	case 1:
+		if r.Chance(1, 4) {
+			last = -1
+		}
+		lastSig = "<=0"
+	case 2, 3, 4:
+		last = lastOpt - 1
+		lastSig = itoa(last)
+	case 5, 6, 7:
+		last = p + lastOpt - 6
+		if last < 0 {
+			last = 0
+		}
+		lastSig = []string{"P-1", "P", "P+1"}[lastOpt-5]
+	case 8:
+		last, lastSig = 12, "12"
+	case 9:
+		last, lastSig = 1000, "1000"
+	}
+	if force > 0 {
+		lastOpt, last, lastSig = 2, force, "forced"
+	}
+	if lastOpt != 0 {
+		args = append(args, "--last", itoa(last))
+	}
+	cols := p
+	if last > 0 && last < p && flag != "" && flag != "--once" {
+		cols = last
+	}
+	rel := "-"
+	switch {
+	case lastOpt == 0 || last <= 0:
+	case last < p:
+		rel = "lt"
+	case last == p:
+		rel = "eq"
+	default:
+		rel = "gt"
+	}
+	return args, fmt.Sprintf("ivl%s/win:%s/last:%s(%s)/P%s", flag, win, lastSig, rel, bucket(p)), cols
+}
+
+var c17journalAccs = []string{"Assets:Bank", "Assets:Bär:Konto", "Assets:Portfolio:日本", "Liabilities:Card", "Expenses:Food", "Expenses:Miete:Zürich", "Income:Salary", "Equity:Equity", "Expenses:A:B:C:D", "Assets:X"}
+
+// genC17Journal generates a small journal and a flag vector of `knut balance`. The interval flag and the --last option are
+// stratified over the case number (every pair within 70 consecutive cases), everything else is drawn.
+func genC17Journal(r *RNG, idx int, maxCols int) (string, []string, int, bool, string) {
+	accs := c17journalAccs
 	comms := []string{"CHF", "USD", "AAPL", "ÖL"}
 	var b strings.Builder
 	for _, a := range accs {
@@ -647,49 +870,111 @@ func genC17Journal(r *RNG) (string, []string, int, bool) {
 	k := r.Chance(2, 5)
 	n := r.Range(1, 14)
 	ncomm := r.Range(1, 3)
+	// the days the transactions are drawn from: the year 2020, about five months, a few days, one day, two to three years
+	lo := c17Date(2020, 1, 1)
+	var days int
+	switch r.Intn(9) {
+	case 0, 1, 2:
+		days = 336
+	case 3, 4:
+		lo = lo.AddDate(0, r.Intn(8), r.Intn(28))
+		days = r.Range(120, 170)
+	case 5:
+		lo = lo.AddDate(0, r.Intn(12), r.Intn(28))
+		days = r.Range(1, 10)
+	case 6:
+		lo = lo.AddDate(0, r.Intn(12), r.Intn(28))
+		days = 0
+	default:
+		lo = lo.AddDate(0, r.Intn(12), r.Intn(28))
+		days = r.Range(500, 1090)
+	}
+	var jlo, jhi time.Time
+	note := func(d time.Time, tx bool) {
+		if tx && (jlo.IsZero() || d.Before(jlo)) {
+			jlo = d
+		}
+		if jhi.IsZero() || d.After(jhi) {
+			jhi = d
+		}
+	}
 	for i := 0; i < n; i++ {
-		d := time.Date(2020, time.Month(r.Range(1, 12)), r.Range(1, 28), 0, 0, 0, 0, time.UTC)
+		d := lo.AddDate(0, 0, r.Intn(days+1))
 		a1, a2 := Pick(r, accs), Pick(r, accs)
 		if a1 == a2 {
 			continue
 		}
 		lit, _ := c17decimal(r, digits, k)
 		lit = c17NormDec(lit)
+		note(d, true)
 		fmt.Fprintf(&b, "%s \"t%d\"\n%s %s %s %s\n\n", d.Format("2006-01-02"), i, a1, a2, lit, comms[r.Intn(ncomm)])
 	}
-	args := []string{"--color=false", "-a", "--from", "2020-01-01", "--to", "2020-12-31", "--digits", itoa(digits)}
+	valued := r.Chance(2, 5)
+	if valued {
+		for _, c := range comms[1:ncomm] {
+			fmt.Fprintf(&b, "2019-12-31 price %s %d.%02d CHF\n", c, r.Range(0, 300), r.Range(1, 99))
+			if r.Chance(1, 3) { // a later price: inside the journal's period or extending it
+				d := lo.AddDate(0, 0, r.Intn(days+120))
+				note(d, false)
+				fmt.Fprintf(&b, "%s price %s %d.%02d CHF\n", d.Format("2006-01-02"), c, r.Range(0, 300), r.Range(1, 99))
+			}
+		}
+	}
+	if jlo.IsZero() { // no transaction at all: the flags are drawn around the intended days
+		jlo, jhi = lo, lo.AddDate(0, 0, days)
+	}
+	if jhi.Before(jlo) {
+		jhi = jlo
+	}
+	args := []string{"--color=false", "--digits", itoa(digits)}
 	if k {
 		args = append(args, "-k")
 	}
-	switch r.Intn(5) {
-	case 0:
-		args = append(args, "--months")
-	case 1:
-		args = append(args, "--quarters")
-	case 2:
-		args = append(args, "--years")
+	if maxCols > 40 && !r.Chance(1, 8) {
+		maxCols = 40
 	}
-	if r.Chance(1, 4) {
-		args = append(args, "--diff")
+	pargs, sig, _ := genC17PeriodFlags(r, jlo, jhi, idx%len(c17intervalFlags), (idx/len(c17intervalFlags))%c17nLastOpts, maxCols, false)
+	args = append(args, pargs...)
+	if r.Chance(2, 3) {
+		args = append(args, Pick(r, []string{"-a", "--sort"}))
+	}
+	if r.Chance(1, 3) {
+		args = append(args, Pick(r, []string{"--diff", "-d"}))
+		sig += "/diff"
 	}
 	if r.Chance(1, 4) {
 		args = append(args, "--close=false")
 	}
 	if r.Chance(1, 5) {
-		args = append(args, "-m", "2")
+		args = append(args, "-m", Pick(r, []string{"2", "1", "3", "1,Expenses", "2,^Assets"}))
 	}
-	if r.Chance(1, 3) {
+	srx := []string{"Assets:Bank", "^Assets", "Expenses", "Konto$", "Liabilities|Income", "Nothing", "."}
+	switch {
+	case valued && r.Chance(2, 3):
 		// valued, with some accounts broken down by commodity (-s): rows with and without a commodity cell share one table
 		// (seeded change C17-d left the rows of the other accounts and the total rows one cell short)
-		for _, c := range comms[1:ncomm] {
-			fmt.Fprintf(&b, "2019-12-31 price %s %d.%02d CHF\n", c, r.Range(0, 300), r.Range(1, 99))
-		}
-		args = append(args, "-v", "CHF", "-s", Pick(r, []string{"Assets:Bank", "^Assets", "Expenses", "Konto$", "Liabilities|Income", "Nothing", "."}))
+		args = append(args, "-v", "CHF", "-s", Pick(r, srx))
 		if r.Chance(1, 4) {
 			args = append(args, "-s", Pick(r, []string{"Equity", "Food"}))
 		}
+		sig += "/v+s"
+	case valued:
+		// valued without -s: the table has no commodity column
+		args = append(args, "-v", "CHF")
+		sig += "/v"
+	case r.Chance(1, 8):
+		args = append(args, "-s", Pick(r, srx))
+		sig += "/s"
 	}
-	return b.String(), args, digits, k
+	if r.Chance(1, 10) {
+		args = append(args, "--account", Pick(r, []string{"Assets", "Expenses|Income", "Bank$", "Nothing", "^E"}))
+		sig += "/account"
+	}
+	if r.Chance(1, 12) {
+		args = append(args, "--commodity", Pick(r, []string{"CHF", "USD|AAPL", "Nothing"}))
+		sig += "/commodity"
+	}
+	return b.String(), args, digits, k, sig
 }
 
 func c17RunKnut(bin string, timeout time.Duration, args ...string) (string, string, error) {
@@ -758,7 +1043,12 @@ func c17ReportTable(outT, outC string, k bool, digits int) (*c17table, int, int,
 		return nil, 0, 0, "balance output has a header"
 	}
 	w := len(recs[0])
+	// the column of commodities is there unless the report is valued and no account is broken down (-v without -s)
+	hasComm := w >= 2 && recs[0][1] == "Comm"
 	tb := &c17table{Groups: []int{1, 1, w - 2}, Thousands: k, Digits: digits}
+	if !hasComm {
+		tb.Groups = []int{1, w - 1}
+	}
 	ri := 0
 	okShape := true
 	for _, l := range lines[:len(lines)-2] {
@@ -784,7 +1074,7 @@ func c17ReportTable(outT, outC string, k bool, digits int) (*c17table, int, int,
 					body := strings.TrimPrefix(l, "| ")
 					ind := len(body) - len(strings.TrimLeft(body, " "))
 					tb.Ops = append(tb.Ops, c17op{Kind: "i", Indent: ind, Text: f})
-				case j == 1:
+				case j == 1 && hasComm:
 					tb.Ops = append(tb.Ops, c17op{Kind: "t", Align: 0, Text: f})
 				default:
 					if _, err := decimal.NewFromString(f); err != nil {
@@ -802,12 +1092,24 @@ func c17ReportTable(outT, outC string, k bool, digits int) (*c17table, int, int,
 	return tb, len(recs), w, ""
 }
 
+// c17LinesMonitor evaluates the statements of the property that need no table on a report whose table could not be reconstructed
+// (`why` is the statement of the reconstruction that failed): the text is lines plus a final blank line, the lines have one width,
+// and as many separator columns run through all of them as the CSV header has fields. The reconstruction's own failure is reported after it.
+func (c *Ctx) c17LinesMonitor(bt *Batch, stream string, i int, in map[string]any, outT, outC, why string) {
+	ncols := len(c17CsvFields(strings.SplitN(outC, "\n", 2)[0]))
+	bt.Add(func(mon string) {
+		c.Monitor(stream, i, "rectLines and alignedOK of the report's lines", in, mon == "ok", mon+"\n"+clip(outT)+"\n"+clip(outC))
+		c.Monitor(stream, i, why, in, false, clip(outT)+"\n"+clip(outC))
+	}, "c17lines", itoa(ncols), Hex(outT))
+}
+
 func runC17Balance(c *Ctx, bt *Batch) {
 	if c.KnutBin == "" {
 		c.Notes = append(c.Notes, "no knut binary: balance stream skipped")
 		return
 	}
-	n := c.N(300, 4000)
+	n := c.N(560, 7000)
+	maxCols := c.N(130, 400) // widest table drawn (--days over a long span is narrowed to this many columns)
 	dir := filepath.Join(c.WorkDir, "c17")
 	os.MkdirAll(dir, 0o755)
 	ran := 0
@@ -816,7 +1118,7 @@ func runC17Balance(c *Ctx, bt *Batch) {
 			continue
 		}
 		r := c.Rng("balance", i)
-		text, args, digits, k := genC17Journal(r)
+		text, args, digits, k, sig := genC17Journal(r, i, maxCols)
 		if c.Replay && c.ReplayInput != nil {
 			if j, ok := c.ReplayInput["journal"].(string); ok {
 				text = j
@@ -841,13 +1143,14 @@ func runC17Balance(c *Ctx, bt *Batch) {
 		ran++
 		tb, nrecs, w, why := c17ReportTable(outT, outC, k, digits)
 		if tb == nil {
-			c.Monitor("balance", i, why, in, false, outT+"\n"+outC)
+			c.c17LinesMonitor(bt, "balance", i, in, outT, outC, why)
 			continue
 		}
 		in["table"] = tb.input()
 		head := []string{c17BoolField(k), itoa(digits), tb.groupsField()}
 		ops := tb.fields()
 		c.Class(fmt.Sprintf("balance/w%d/k%v/d%s/rows%s", w, k, c17DigitsClass(digits), bucket(nrecs)))
+		c.Class("balance/" + sig)
 		// the real text is what the model renders for the table the CSV describes …
 		bt.Add(func(model string) { c.Compare("balance", i, "c17text(balance)", in, "ok "+Hex(outT), model) },
 			append(append([]string{"c17text"}, head...), ops...)...)
@@ -1046,6 +1349,7 @@ func genC17BigJournal(r *RNG, leaves int) (string, []string, int, bool) {
 	depth := r.Range(0, 3) // further levels between the group and the leaf
 	pad := Pick(r, []int{1, 3, 4, 6})
 	accs := make([]string, 0, leaves)
+	jlo, jhi := c17Date(2020, 12, 31), c17Date(2020, 1, 1)
 	for i := 0; i < leaves; i++ {
 		g := i / perGroup
 		a := tops[g%len(tops)] + ":" + c17bigSegs[(g/len(tops))%len(c17bigSegs)] + itoa(g)
@@ -1070,6 +1374,12 @@ func genC17BigJournal(r *RNG, leaves int) (string, []string, int, bool) {
 		}
 		for t := 0; t < nt; t++ {
 			d := time.Date(2020, time.Month(r.Range(1, 12)), r.Range(1, 28), 0, 0, 0, 0, time.UTC)
+			if d.Before(jlo) {
+				jlo = d
+			}
+			if d.After(jhi) {
+				jhi = d
+			}
 			var lit string
 			if r.Chance(1, 3) {
 				lit, _ = c17decimal(r, digits, k)
@@ -1090,17 +1400,30 @@ func genC17BigJournal(r *RNG, leaves int) (string, []string, int, bool) {
 			fmt.Fprintf(&b, "%s \"t%d\"\n%s %s %s %s\n\n", d.Format("2006-01-02"), i, other, a, lit, comms[r.Intn(ncomm)])
 		}
 	}
-	args := []string{"--color=false", "-a", "--from", "2020-01-01", "--to", "2020-12-31", "--digits", itoa(digits)}
+	args := []string{"--color=false", "--digits", itoa(digits)}
 	if k {
 		args = append(args, "-k")
 	}
-	switch r.Intn(6) {
-	case 0:
-		args = append(args, "--months")
-	case 1:
-		args = append(args, "--quarters")
-	case 2:
-		args = append(args, "--years")
+	if r.Chance(1, 2) {
+		args = append(args, "-a", "--from", "2020-01-01", "--to", "2020-12-31")
+		switch r.Intn(6) {
+		case 0:
+			args = append(args, "--months")
+		case 1:
+			args = append(args, "--quarters")
+		case 2:
+			args = append(args, "--years")
+		}
+	} else {
+		// any interval flag, window and --last (at most 12 columns; windows that leave accounts in the report)
+		if jhi.Before(jlo) {
+			jlo, jhi = c17Date(2020, 1, 1), c17Date(2020, 12, 31)
+		}
+		pargs, _, _ := genC17PeriodFlags(r, jlo, jhi, -1, -1, 12, true)
+		args = append(args, pargs...)
+		if r.Chance(2, 3) {
+			args = append(args, "-a")
+		}
 	}
 	if r.Chance(1, 4) {
 		args = append(args, "--diff")
@@ -1115,7 +1438,10 @@ func genC17BigJournal(r *RNG, leaves int) (string, []string, int, bool) {
 		for _, c := range comms[1:ncomm] {
 			fmt.Fprintf(&b, "2019-12-31 price %s %d.%02d CHF\n", c, r.Range(0, 300), r.Range(1, 99))
 		}
-		args = append(args, "-v", "CHF", "-s", Pick(r, []string{"^Assets", "Expenses", "Konto", "Liabilities|Income", "Nothing", "."}))
+		args = append(args, "-v", "CHF")
+		if r.Chance(3, 4) {
+			args = append(args, "-s", Pick(r, []string{"^Assets", "Expenses", "Konto", "Liabilities|Income", "Nothing", "."}))
+		}
 	}
 	return b.String(), args, digits, k
 }
@@ -1210,7 +1536,7 @@ func runC17Paced(c *Ctx, bt *Batch) {
 		var why string
 		pc.tb, _, _, why = c17ReportTable(pc.outT, pc.outC, k, digits)
 		if pc.tb == nil {
-			c.Monitor("paced", i, why, pc.in, false, clip(pc.outT)+"\n"+clip(pc.outC))
+			c.c17LinesMonitor(bt, "paced", i, pc.in, pc.outT, pc.outC, why)
 		}
 		// the schedules: distinct kinds, one of them reads the CSV
 		start := r.Intn(len(kinds))
